@@ -406,6 +406,12 @@ def run(pid, tier, replay, start):
         k = by_idx[i].key
         if k.startswith("explicit-lifetime:") and k[len("explicit-lifetime:"):] in kept_keys and not regen:
             rep.violation(f"type:{k}", f"return type {k[len('explicit-lifetime:'):]} is accepted (and reproduces its values) with an elided self lifetime, but with the lifetime spelled out the same configuration does not compile: {getattr(crate, 'reasons', {}).get(i, '')}", {"return_type": k})
+    # a return type that the pinned tree accepts with these configurations (it is not on the committed
+    # list of rejected shapes) and that no longer compiles cannot reproduce any value at all
+    for i in rejected:
+        k = by_idx[i].key
+        if not k.startswith("explicit-lifetime:") and not regen:
+            rep.violation(f"type:{k}", f"return type {k}: configuring its values through returns() no longer compiles (the shape is not on the list of shapes rejected on the pinned tree): {getattr(crate, 'reasons', {}).get(i, '')}", {"return_type": k})
     if len(kept) < 30:
         glib.machinery("vacuous: fewer than 30 accepted return types")
     sample = kept[len(kept) // 2]
